@@ -78,7 +78,7 @@ def plan(tier, seed):
         for i in range(64):
             cases.append({'kind': 'sweep', 'seed': base + rep * 64 + i, 'opcodes': [(i * 4 + k) % 256 for k in range(4)],
                           'perm_base': (i * 4) % 256})
-    for i in range(112 * mult):
+    for i in range(160 * mult):
         cases.append({'kind': 'seq', 'seed': base + 5000 + i, 'perm_base': (i * 16) % 256})
     for i in range(40 * mult):
         cases.append({'kind': 'notify', 'seed': base + 9000 + i, 'perm_base': (i * 8) % 256})
@@ -459,7 +459,10 @@ async def seq_case(case, r: R):
     hs, bearers, enc, auth, info = await make_harness(case, r, rng)
     g = Gen(rng, hs, enc, auth)
     trail = []
-    n = rng.randint(1, 20)
+    # four sequences of 1-20 requests on the same connection; the MTU exchange falls into one of them
+    lengths = [rng.randint(1, 20) for _ in range(4)]
+    n = sum(lengths)
+    r.ev('sequences', len(lengths))
     mtu_at = rng.randrange(n + 1) if rng.random() < 0.85 else -1
     # weights: the multi-attribute builders carry most of the size arithmetic
     ops = [ra.READ_REQ] * 2 + [ra.READ_BLOB_REQ] * 2 + [ra.READ_BY_TYPE_REQ] * 3 + [ra.READ_BY_GROUP_TYPE_REQ] * 3 + \
